@@ -673,6 +673,59 @@ func InstallVarModels(m *interp.Machine) {
 			return &interp.Unknown{Why: "Var.IsSlice of " + interp.Show(recv)}, nil
 		}
 	}
+	// any other method of Var (a restructuring adds Sizeof, ZeroValue, ElemTypeString …) is interpreted
+	// from its source; where it asks the go/types variable — which the abstract variable of this engine
+	// does not carry — its answer is unknown: conditions on it are explored both ways, printing it is
+	// undecided.
+	if m.Prog == nil {
+		return
+	}
+	fn := m.Prog.LookupFunc(load.PkgRegistry, "Var.TypeString")
+	if fn == nil {
+		return
+	}
+	sig, _ := fn.Type().(*types.Signature)
+	if sig == nil || sig.Recv() == nil {
+		return
+	}
+	rt := sig.Recv().Type()
+	if p, ok := rt.(*types.Pointer); ok {
+		rt = p.Elem()
+	}
+	named, ok := types.Unalias(rt).(*types.Named)
+	if !ok {
+		return
+	}
+	for i := 0; i < named.NumMethods(); i++ {
+		meth := named.Method(i)
+		if _, modelled := m.Ext[meth.FullName()]; modelled {
+			continue
+		}
+		msig, _ := meth.Type().(*types.Signature)
+		if msig == nil || msig.Results().Len() == 0 {
+			continue
+		}
+		m.Ext[meth.FullName()] = func(m *interp.Machine, pos token.Pos, recv interp.Value, args []interp.Value) (interp.Value, error) {
+			v, err := m.CallSource(pos, meth, recv, args)
+			if err == nil {
+				return v, nil
+			}
+			u, isU := err.(*interp.ErrUndecided)
+			if !isU || !strings.Contains(u.Msg, "nil dereference") {
+				return nil, err
+			}
+			m.Notes = append(m.Notes, interp.Note{Rule: "H-UNMODELLED", Key: "Var." + meth.Name(), Pos: pos, Msg: "method " + meth.Name() + " of registry.Var asks the go/types variable: its answer is unknown to engine M"})
+			why := "Var." + meth.Name() + " of " + interp.Show(recv)
+			if msig.Results().Len() > 1 {
+				var t interp.Tuple
+				for k := 0; k < msig.Results().Len(); k++ {
+					t = append(t, &interp.Unknown{Why: fmt.Sprintf("%s#%d", why, k)})
+				}
+				return t, nil
+			}
+			return &interp.Unknown{Why: why}, nil
+		}
+	}
 }
 
 func ownerID(v interp.Value) string {
